@@ -17,7 +17,7 @@ pub fn check() -> Check {
         spec: CheckSpec {
             id: "C15",
             level: "exploration",
-            rule: "one case = one scenario against a child process running the real Server with max_connections = N (2-8). (1) Limit: N connections are opened and each proven live by a request/reply; an (N+1)-th client sends a request and is watched for 500 ms: a reply that arrives while the N others are still open and all answer another request afterwards is a violation; then one of the N is closed and the waiting client must be served. Also 3N clients connect at once and the number served-and-still-open is watched while served ones are closed in rounds until all were served. (2) Leak: a batch of 2N-6N connections is ended in one way (clean close; close mid-frame; malformed command so that the server closes; a panic inside the connection's handler task; a panic on the blocking thread; reset with unread replies), in overlapping groups, and then a full-capacity probe opens N fresh connections that must all be served at the same time. One evaluation = one limit observation or one capacity probe. Non-trivial/distinct = distinct (N, ending kind, batch size, overlap) probes and limit observations.",
+            rule: "one case = one scenario against a child process running the real Server with max_connections = N (2-8). (1) Limit: N connections are opened and each proven live by a request/reply; an (N+1)-th client sends a request and is watched for 500 ms: a reply that arrives while the N others are still open and all answer another request afterwards is a violation; then one of the N is closed and the waiting client must be served. Also 3N clients connect at once and the number served-and-still-open is watched while served ones are closed in rounds until all were served. (2) Leak: a batch of 2N-6N connections is ended in one way (clean close; close mid-frame; malformed command so that the server closes; a panic inside the connection's handler task; a panic on the blocking thread; reset with unread replies; or arriving during a 30-90 ms descriptor shortage of the server process, in which accept() fails with EMFILE and is retried), in overlapping groups, and then a full-capacity probe opens N fresh connections that must all be served at the same time. One evaluation = one limit observation or one capacity probe. Non-trivial/distinct = distinct (N, ending kind, batch size, overlap) probes and limit observations.",
             assumptions: vec![
                 "the only wall-clock negative observation is 'no reply within 500 ms', and it is never a verdict by itself: the verdict is a reply that does arrive while N others are provably being served",
                 "handler panics are produced by the harness's storage wrapper (serve.rs: PanickyKv); listener, semaphore accounting and handler are the real code",
@@ -64,7 +64,7 @@ fn got_reply(c: &mut Conn, within: Duration) -> bool {
     c.rx.reply(Instant::now() + within).is_ok()
 }
 
-const ENDINGS: &[&str] = &["clean-close", "close-mid-frame", "malformed-command", "handler-panic", "blocking-thread-panic", "reset-with-unread-replies"];
+const ENDINGS: &[&str] = &["clean-close", "close-mid-frame", "malformed-command", "handler-panic", "blocking-thread-panic", "reset-with-unread-replies", "accept-failure"];
 
 /// Open a connection and end it in the given way. Returns true if the server closed it.
 fn faulty_connection(port: u16, kind: &str, r: &mut Rng) -> bool {
@@ -156,7 +156,8 @@ fn scenario(ctx: &Ctx, case: u64, out: &mut Out) {
     let mut conf = Conf::default();
     conf.conc = 2;
     let threads = *r.pick(&[1usize, 2, 4]);
-    let mut srv = match Server::spawn(&dir, &conf, n, threads, &[]) {
+    // the listener's retry of a failed accept: from 5 ms, giving up (by design) only past 10 s
+    let mut srv = match Server::spawn(&dir, &conf, n, threads, &["backoff:5,10000".to_string()]) {
         Ok(s) => s,
         Err(e) => {
             out.inconclusive.push(format!("case {}: could not start the server child: {}", case, e));
@@ -274,6 +275,35 @@ fn scenario(ctx: &Ctx, case: u64, out: &mut Out) {
         ctx.breadcrumb(case, &format!("leak {} x{}", kind, batch));
         let mut closed_by_server = 0;
         let mut left = batch;
+        if kind == "accept-failure" {
+            // connections that arrive while the server process is out of descriptors: accept()
+            // fails (EMFILE) and is retried by the listener until the shortage is over; the client
+            // that waited through it must then be served like any other
+            left = 0;
+            for w in 0..r.range(2, 4) {
+                let ms = r.range(30, 90);
+                if !srv.fd_shortage_begin(ms) {
+                    out.inconclusive.push(format!("case {}: the server child did not confirm the descriptor shortage", case));
+                    break;
+                }
+                let mut c = open(port);
+                if let Some(c) = c.as_mut() {
+                    let _ = send_only(c, &format!("short{}", w));
+                }
+                if !srv.fd_shortage_end() {
+                    out.inconclusive.push(format!("case {}: the server child did not confirm the end of the descriptor shortage", case));
+                    break;
+                }
+                out.count("descriptor_shortage_windows", 1);
+                if let Some(c) = c.as_mut() {
+                    if got_reply(c, Duration::from_secs(20)) {
+                        out.count("clients_served_after_waiting_through_failed_accepts", 1);
+                    } else if srv.ended().is_none() {
+                        out.violation("client-never-served-after-accept-failures", format!("case {}: max_connections={}: a client that connected during a {} ms descriptor shortage of the server was not served within 20 s after the shortage was over", case, n, ms), ctx.replay(case, json!({"n": n, "kind": kind})));
+                    }
+                }
+            }
+        }
         while left > 0 {
             ctx.breadcrumb(case, &format!("leak {} ({} to go)", kind, left));
             let g = left.min(overlap);
@@ -290,7 +320,9 @@ fn scenario(ctx: &Ctx, case: u64, out: &mut Out) {
             }
             left -= g;
         }
-        out.count(&format!("connections_ended_by_{}", kind), batch as u64);
+        if kind != "accept-failure" {
+            out.count(&format!("connections_ended_by_{}", kind), batch as u64);
+        }
         out.count("connections_closed_by_server", closed_by_server);
         out.evaluations += 1;
         let (served, held) = capacity_probe(port, n, &format!("p{}", case));
